@@ -52,8 +52,8 @@ pub fn run(rt: &tokio::runtime::Runtime, dir: &std::path::Path, c: &FileCase, ch
             (f, m)
         }
         3 => {
-            // a sparse file: real content in the first 2 MiB (all that 16 polls can reach), then a hole
-            write_file(&path, c.size.min(2 << 20));
+            // a sparse file: real content in the first 6 MiB (polling stops after 4 MiB), then a hole
+            write_file(&path, c.size.min(6 << 20));
             let f = std::fs::OpenOptions::new().write(true).open(&path).unwrap();
             f.set_len(c.size).unwrap();
             drop(f);
@@ -128,7 +128,8 @@ pub fn run(rt: &tokio::runtime::Runtime, dir: &std::path::Path, c: &FileCase, ch
                         }
                         // futures' unfold panics when polled after it returned None ("must not be polled
                         // after it returned Poll::Ready(None)"): stop at the end; errors may be re-polled
-                        if ended || after_terminal >= 2 || k >= 16 {
+                        // at most 16 polls, and (sparse files) at most 4 MiB whatever the read size
+                        if ended || after_terminal >= 2 || k >= 16 || cur - a >= (4 << 20) {
                             break;
                         }
                     }
